@@ -154,4 +154,53 @@ example : Flat [⟨0, .add (.src .param) (.sing 0)⟩] ∧
       rw [h2] at hr; cases hr; rfl
     subst this; decide⟩
 
+/-- **Unrelated writes, nested calls** (any nesting depth, early cut-off included).  Extra hypotheses,
+all explicit: the call graph is acyclic (`Acyclic P rank`), the fuel exceeds every rank, the calls of
+`pre` and the call of `(f, a)` are clean (`CleanCalls`).  After the call of `(f, a)`, any sequence
+`ws` of source operations — `set`/`rem` of keyed sources, singleton writes and removals,
+tracked-field inserts and removals, with any values — each on a key that the dependency closure
+pico recorded for that node does not mention (`Avoids`, decidable: it walks the recorded dependency
+lists of the stored nodes), followed by another call of `(f, a)`, runs no body at all: the run
+counters and the execution log are unchanged by that call. -/
+theorem C02_unrelated_writes_nested_partial (fuel cap : Nat) (P : Prog) (rank : Nat → Nat) (pre : List Op) (f a : Nat)
+    (ws : List Op) (hacy : Acyclic P rank) (hrank : ∀ g, rank g < fuel)
+    (hclean : CleanCalls fuel cap P (pre ++ [.call f a]))
+    (hws : ∀ op, op ∈ ws →
+      match op.srcKey with
+      | some k => Avoids (after fuel cap P (pre ++ [.call f a])).derived k fuel (nodeOf P f a)
+      | none => False) :
+    (after fuel cap P (pre ++ .call f a :: ws ++ [.call f a])).runs = (after fuel cap P (pre ++ .call f a :: ws)).runs ∧
+    (after fuel cap P (pre ++ .call f a :: ws ++ [.call f a])).log = (after fuel cap P (pre ++ .call f a :: ws)).log := by
+  refine unrelated_writes_no_rerun hacy fuel cap hrank pre f a ws hclean ?_
+  intro op hop
+  have := hws op hop
+  cases hk : op.srcKey with
+  | none => rw [hk] at this; exact absurd this id
+  | some k => rw [hk] at this; exact ⟨k, rfl, this⟩
+
+/-- **The mechanism behind it** (any program, any storage, no hypothesis on cleanliness): a stored node
+all of whose recorded dependencies are, transitively, as they were when they were recorded
+(`QuietN`: sources not re-stamped since, absent sources still absent, callees not updated since and
+themselves quiet) is served by a top-level call without running any body. -/
+theorem C02_quiet_no_rerun (fuel : Nat) (P : Prog) (s : Storage) (f a g : Nat) (hg : g ≤ fuel)
+    (hq : QuietN s g (nodeOf P f a)) :
+    (step fuel P s (.call f a)).1.runs = s.runs ∧ (step fuel P s (.call f a)).1.log = s.log :=
+  step_call_quiet fuel s f a g hg hq
+
+/- Non-vacuity: `t` calls `g`; `g` calls two readers (keyed source `param`, and key 2 through a
+parameterless function).  After `t(0)`: writes to key 5 and key 7, removal of key 3, a singleton
+write, a tracked-field insert — none is in the recorded closure of `t(0)`. -/
+example : Acyclic progF22 (fun i => 4 - i) ∧ (∀ g, (fun i => 4 - i) g < 6) ∧
+    CleanCalls 6 10 progF22 ([.set 0 1, .set 2 1, .set 3 0, .set 5 5] ++ [.call 0 0]) ∧
+    (∀ op, op ∈ [Op.set 5 6, .rem 3, .sset 1 4, .tins 0 3, .set 7 1, .set 5 5] →
+      match op.srcKey with
+      | some k => Avoids (after 6 10 progF22 ([.set 0 1, .set 2 1, .set 3 0, .set 5 5] ++ [.call 0 0])).derived k 6 (nodeOf progF22 0 0)
+      | none => False) :=
+  ⟨acyclic_of_bounded _ _ (by decide), fun g => by simp; omega, cleanCalls_of_B _ _ _ _ (by decide +kernel),
+   by decide +kernel⟩
+
+/- … while a write to key 0, which `t(0)` reads through `g` and the reader, is in the closure. -/
+example : ¬ Avoids (after 6 10 progF22 ([.set 0 1, .set 2 1, .set 3 0, .set 5 5] ++ [.call 0 0])).derived (.src 0) 6 (nodeOf progF22 0 0) := by
+  decide +kernel
+
 end IsoVerif.Props.C02
